@@ -20,6 +20,8 @@ RULES = {
     "R02.3": "flat-input re-chunking, sibling agreement: in the Data::Single arm of every spatial forward the vector is split with "
              "chunks_exact(h*w) then chunks_exact(w) where (h, w) are components 1, 2 of the layer's *inputs* shape",
 }
+RULES["R02.1"] += " | padding-applied-whenever-configured: the pad3d call in Convolution::forward is unconditional or skipped only when both paddings are zero (path condition of the call)"
+RULES["R02.5"] += " | decided on the E6 effect summary of _forward: per Layer variant exactly one falling-through path whose effects are push(pre <- F.0), push(post <- F.1), push(max <- None | Some(F.2)) [, push(feedbacks <- vec![F.3, F.4])] with F = <payload>::forward(payload, activated.last() at loop entry); the four records are the returned tuple; no other effect"
 ASSUMPTIONS = ["layer inputs match self.inputs (documented precondition of the spatial forwards)"]
 TRUSTED = ["rustc nightly front end", "driver/src/main.rs", "sa/e1.py"]
 
